@@ -2,7 +2,7 @@ SPECIFICATION MCSpec
 CONSTANTS
   Runs = {"A", "B", "C"}
   Mode = "mc"
-  Faithful = {"F8"}
+  Faithful = {}
   Tabs <- MCTabs
   MaxVal = 3
   MaxRho = 3
